@@ -16,6 +16,33 @@ func zzDaysIn(y, m int) int {
 	return d
 }
 
+// zzPrevDay / zzNextDay: calendar successor functions on symbolic fields.
+func zzPrevDay(y, m, d int) (int, int, int) {
+	py := zz.IteInt(zz.And(m == 1, d == 1), y-1, y)
+	pm := zz.IteInt(d == 1, zz.IteInt(m == 1, 12, m-1), m)
+	pd := zz.IteInt(d == 1, zzDaysIn(py, pm), d-1)
+	return py, pm, pd
+}
+
+func zzNextDay(y, m, d int) (int, int, int) {
+	last := d == zzDaysIn(y, m)
+	ny := zz.IteInt(zz.And(last, m == 12), y+1, y)
+	nm := zz.IteInt(last, zz.IteInt(m == 12, 1, m+1), m)
+	nd := zz.IteInt(last, 1, d+1)
+	return ny, nm, nd
+}
+
+// zzWeekday: 1 = Monday .. 7 = Sunday (Sakamoto's method, years >= 1).
+func zzWeekday(y, m, d int) int {
+	t := 0
+	for i, v := range []int{0, 3, 2, 5, 0, 3, 5, 1, 4, 6, 2, 4} {
+		t = zz.IteInt(m == i+1, v, t)
+	}
+	yy := zz.IteInt(m < 3, y-1, y)
+	wd := (yy + yy/4 - yy/100 + yy/400 + t + d) % 7 // 0 = Sunday
+	return zz.IteInt(wd == 0, 7, wd)
+}
+
 // ZZ_C13_Shortcuts: the relative shortcuts (--this/--last month, quarter, year and
 // --today/--yesterday/--tomorrow, --after/--before) select exactly the records of the
 // reference period, for every reference date of the year window.
@@ -25,8 +52,13 @@ func ZZ_C13_Shortcuts() {
 	m := zz.IntRange("m", 1, 12)
 	d := zz.IntRange("d", 1, 31)
 	zz.Assume(d <= zzDaysIn(y, m))
-	now := gotime.Date(y, gotime.Month(m), d, 12, 0, 0, 0, gotime.UTC)
 	sel := zz.Param("sel")
+	if sel == 9 || sel == 10 {
+		// week shortcuts: the reference Monday is up to 13 conditional day steps away; every
+		// reference date of the window is taken as its own path (case split) instead
+		y, m, d = zz.Concretize(y), zz.Concretize(m), zz.Concretize(d)
+	}
+	now := gotime.Date(y, gotime.Month(m), d, 12, 0, 0, 0, gotime.UTC)
 	args := &FilterArgs{}
 	// reference period [sy-sm-sd, uy-um-ud]
 	var sy, sm, sd, uy, um, ud int
@@ -57,15 +89,62 @@ func ZZ_C13_Shortcuts() {
 	case 6:
 		args.Today = true
 		sy, sm, sd, uy, um, ud = y, m, d, y, m, d
+	case 7:
+		args.Yesterday = true
+		sy, sm, sd = zzPrevDay(y, m, d)
+		uy, um, ud = sy, sm, sd
+	case 8:
+		args.Tomorrow = true
+		sy, sm, sd = zzNextDay(y, m, d)
+		uy, um, ud = sy, sm, sd
+	case 9, 10:
+		// --this-week / --last-week: Monday to Sunday of the (previous) ISO week
+		zz.Assume(y >= 1)
+		args.ThisWeek = sel == 9
+		args.LastWeek = sel == 10
+		back := zzWeekday(y, m, d) - 1
+		if sel == 10 {
+			back += 7
+		}
+		sy, sm, sd = y, m, d
+		for i := 0; i < 13; i++ {
+			py, pm, pd := zzPrevDay(sy, sm, sd)
+			step := i < back
+			sy, sm, sd = zz.IteInt(step, py, sy), zz.IteInt(step, pm, sm), zz.IteInt(step, pd, sd)
+		}
+		uy, um, ud = sy, sm, sd
+		for i := 0; i < 6; i++ {
+			uy, um, ud = zzNextDay(uy, um, ud)
+		}
+	case 11, 12:
+		// --after X / --before X (exclusive): only the day after / before X of the three days around it
+		x := klog.ZZRawDate(y, m, d)
+		if sel == 11 {
+			args.After = x
+		} else {
+			args.Before = x
+		}
+		py, pm, pd := zzPrevDay(y, m, d)
+		ny, nm, nd := zzNextDay(y, m, d)
+		mk := func(yy, mm, dd, id int) klog.Record {
+			r := klog.NewRecord(klog.ZZRawDate(yy, mm, dd))
+			r.AddDuration(klog.NewDuration(0, id), nil)
+			return r
+		}
+		out := args.ApplyFilter(now, []klog.Record{mk(py, pm, pd, 1), mk(y, m, d, 2), mk(ny, nm, nd, 3)})
+		want := 3
+		if sel == 12 {
+			want = 1
+		}
+		zz.Assert(len(out) == 1, "exactly-the-periods-records-selected")
+		if len(out) == 1 {
+			zz.Assert(out[0].Entries()[0].Duration().InMinutes() == want, "first-and-last-day-included-neighbours-excluded")
+		}
+		return
 	}
 	// the day before `since` and the day after `until`, by calendar arithmetic on the fields
-	by := zz.IteInt(zz.And(sm == 1, sd == 1), sy-1, sy)
-	bm := zz.IteInt(sd == 1, zz.IteInt(sm == 1, 12, sm-1), sm)
-	bd := zz.IteInt(sd == 1, zzDaysIn(by, bm), sd-1)
-	last := ud == zzDaysIn(uy, um)
-	ay := zz.IteInt(zz.And(last, um == 12), uy+1, uy)
-	am := zz.IteInt(last, zz.IteInt(um == 12, 1, um+1), um)
-	ad := zz.IteInt(last, 1, ud+1)
+	by, bm, bd := zzPrevDay(sy, sm, sd)
+	ay, am, ad := zzNextDay(uy, um, ud)
 	mk := func(yy, mm, dd, id int) klog.Record {
 		r := klog.NewRecord(klog.ZZRawDate(yy, mm, dd))
 		r.AddDuration(klog.NewDuration(0, id), nil)
